@@ -79,3 +79,20 @@ Example C17_example :
   exists a b, deposit_address_v0 sha tw (KSecp (2 :: repeat 1 32)) (repeat 3 20) net = Ok a /\
               deposit_address_v0 sha tw (KSchnorr (repeat 1 32) true) (repeat 3 20) net = Ok b.
 Proof. cbn. eexists _, _. split; reflexivity. Qed.
+
+(* ---- string layer: bech32 / bech32m ---- *)
+From Goat Require Import Proofs.Bech32.
+(* every string the bech32 / bech32m encoder produces (lower-case printable human-readable part, 5-bit data,
+   at most 90 characters) decodes back to exactly that human-readable part, data and checksum flavour: the
+   checksum algebra (linearity of the generator over GF(2)) and the character layer are proved, for all inputs *)
+Theorem C17_bech32_round_trip hrp data v :
+  hrp_ok hrp -> Forall (fun d => (d < 32)%N) data -> (length hrp + 1 + length data + 6 <= 90)%nat ->
+  bech32_decode (bech32_encode hrp data v) = Some (hrp, data, v).
+Proof. exact (bech32_round_trip hrp data v). Qed.
+Print Assumptions C17_bech32_round_trip.
+
+Theorem C17_checksum_verifies (c0 K : N) : (K < 2 ^ 30)%N ->
+  let p := N.lxor (fold_left pm_step [0; 0; 0; 0; 0; 0]%N c0) K in
+  fold_left pm_step (checksum_symbols p) c0 = K.
+Proof. exact (checksum_verifies c0 K). Qed.
+Print Assumptions C17_checksum_verifies.
